@@ -4,4 +4,5 @@ package checks
 var Registry = map[string]func(tier string){
 	"C01": C01,
 	"C16": C16,
+	"C10": C10,
 }
